@@ -76,6 +76,8 @@ def families(tier):
     fams.append(sched.step_family("C01", "ring2_dpush", topos.RINGS_PUSH["ring2_dpush"]))
     # adapter chains in every ordering: all pairs (quick: a subset), and triples in the thorough tier
     kinds = ["scale", "linear", "next", "avg", "dfix", "dpull2", "dpush"]
+    if not q:
+        kinds += ["prev", "step", "sum"]  # (StackTime is left out: stacked NoGrid data with >1 entries fails its own shape check)
     import itertools
     chains = [list(c) for c in itertools.product(kinds, repeat=2)]
     if q:
